@@ -1,6 +1,6 @@
 (* Dispatch.v — single entry point used by the OCaml runner and by the in-Coq
    cross-check: component name + input value -> observation value. *)
-From XV Require Import Base Options Worker Ctl Sched System.
+From XV Require Import Base Options Worker Ctl Sched DSession System StatRec Rsync Warn.
 
 Definition dispatch (name : string) (input : sx) : sx :=
   if String.eqb name "options" then run_options input
@@ -19,6 +19,21 @@ Definition dispatch (name : string) (input : sx) : sx :=
                    | Some a', Some b' => sx_bool (Ctl.coll_eqb a' b')
                    | _, _ => bad_input
                    end
+    | _ => bad_input
+    end
+  else if String.eqb name "statrec" then run_statrec input
+  else if String.eqb name "remember" then run_remember input
+  else if String.eqb name "reltoroot" then run_reltoroot input
+  else if String.eqb name "fnmatch" then run_fnmatch input
+  else if String.eqb name "rsync_filter" then run_rsync_filter input
+  else if String.eqb name "specs" then run_specs input
+  else if String.eqb name "warn" then run_warn input
+  else if String.eqb name "default_budget" then
+    match input with
+    | SL [o; np] => match un_opt un_z o, un_opt un_z np with
+                    | Some o', Some np' => sx_opt SZ (default_max_restart o' np')
+                    | _, _ => bad_input
+                    end
     | _ => bad_input
     end
   else SL [SS "unknown-component"].
